@@ -152,7 +152,7 @@ def gen_pairs(ctx, rng, count, ref=None):
     out = []
     templates = ["hand_made.mpd", "manifest_a.mpd", "manifest_n.mpd", "hand_made.mpd"]
     for i in range(count):
-        stream = ["bbb", "tears", "syn1", "syn2", "syn3", "syn4", "syn5"][i % 7]
+        stream = ["bbb", "tears", "syn1", "syn2", "syn3", "syn4", "syn5", "syn7"][(i + i // 8) % 8]
         man = templates[(i // 5) % 4]
         depth = rng.choice([20, 40, 60, 120])
         opts = {"timeline": "1", "depth": str(depth)}
@@ -256,7 +256,7 @@ def ch_pair(ctx, cases=None) -> Channel:
     plines, precs = [], []
     with appboot.Clock("2023-01-01T00:00:00Z") as clock:
         ref = {}
-        for st_ in ("bbb", "tears", "syn1", "syn2", "syn3", "syn4", "syn5"):
+        for st_ in ("bbb", "tears", "syn1", "syn2", "syn3", "syn4", "syn5", "syn7"):
             t0 = next(iter(segchecks.tracks(app, st_).values()))
             ref[st_] = t0.ref_dur / t0.ref_ts
         for stream, url, t1, t2, kind, opts, defaults in (cases or gen_pairs(ctx, rng, ctx.scale(48, 2000), ref)):
@@ -313,6 +313,24 @@ def ch_pair(ctx, cases=None) -> Channel:
                         ch.oracle_failures.append({**case, "kind": "shared-entry-differs", "rep": a.rep_id, "t": t,
                                                    "what": f"d={d1[t]} at T1, d={d2[t]} at T2"})
                         break
+                else:
+                    # both manifests describe one presentation timeline: an entry of one that overlaps an entry
+                    # of the other in time is the same segment, so it must have the same start and duration
+                    i = j = 0
+                    A, B = sorted(a.timeline), sorted(b.timeline)
+                    while i < len(A) and j < len(B):
+                        (ta, da), (tb, db) = A[i], B[j]
+                        if ta + da <= tb:
+                            i += 1
+                        elif tb + db <= ta:
+                            j += 1
+                        else:
+                            if (ta, da) != (tb, db):
+                                ch.oracle_failures.append({**case, "kind": "shared-entry-differs", "rep": a.rep_id, "t": ta,
+                                                           "what": f"T1 lists (t={ta}, d={da}), T2 lists the overlapping (t={tb}, d={db})"})
+                                break
+                            i += 1
+                            j += 1
                 if a.timeline and b.timeline:
                     e1 = a.timeline[-1][0] + a.timeline[-1][1]
                     e2 = b.timeline[-1][0] + b.timeline[-1][1]
@@ -372,7 +390,7 @@ def ch_pair(ctx, cases=None) -> Channel:
             if overlap:
                 ch.nontrivial.add((url, case["t1"], case["t2"]))
             ch.sample(case, limit=3)
-    for st_ in ("bbb", "tears", "syn1", "syn2", "syn3", "syn4", "syn5"):
+    for st_ in ("bbb", "tears", "syn1", "syn2", "syn3", "syn4", "syn5", "syn7"):
         set_stream_defaults(app, st_, None)
     for (case, impl_p), mo in zip(precs, _driver(ch, plines)):
         ch.count("patch_model_compared")
